@@ -3,6 +3,7 @@ package shell_operator
 // C07: combining adjacent tasks keeps every binding context, in order.
 
 import (
+	"context"
 	"strconv"
 
 	"github.com/deckhouse/deckhouse/pkg/log"
@@ -28,6 +29,7 @@ func vhNewOperator() (*ShellOperator, *queue.TaskQueue) {
 	zz.Setenv("QUEUE_ACTIONS_METRICS", "no")
 	op := &ShellOperator{logger: log.NewNop()}
 	op.TaskQueues = queue.NewTaskQueueSet()
+	op.TaskQueues.WithContext(context.Background())
 	op.TaskQueues.NewNamedQueue("main", nil)
 	return op, op.TaskQueues.GetByName("main")
 }
